@@ -8,9 +8,10 @@ import (
 
 func TestReplay(t *testing.T) {
 	verif.ReplayMain(map[string]func(){
-		"HarnessReverseAbsent":    HarnessReverseAbsent,
-		"HarnessReverseAfterGone": HarnessReverseAfterGone,
-		"HarnessReverseLoss":      HarnessReverseLoss,
-		"HarnessReverseRouting":   HarnessReverseRouting,
+		"HarnessReverseAbsent":           HarnessReverseAbsent,
+		"HarnessReverseAfterGone":        HarnessReverseAfterGone,
+		"HarnessReverseFromNotification": HarnessReverseFromNotification,
+		"HarnessReverseLoss":             HarnessReverseLoss,
+		"HarnessReverseRouting":          HarnessReverseRouting,
 	})
 }
